@@ -37,6 +37,32 @@ func rangeLoopOver(fn *ssa.Function, fieldName string) (hdr *ssa.BasicBlock, idx
 	return nil, nil, nil
 }
 
+// rangeLoopsOver: every such loop (a function may walk the same list twice).
+func rangeLoopsOver(fn *ssa.Function, fieldName string) (hdrs []*ssa.BasicBlock, slices []ssa.Value) {
+	for _, b := range fn.Blocks {
+		if !isLoopHeader(b) {
+			continue
+		}
+		iff, ok := lastInstr(b).(*ssa.If)
+		if !ok {
+			continue
+		}
+		c, ok := iff.Cond.(*ssa.BinOp)
+		if !ok || c.Op != token.LSS {
+			continue
+		}
+		ln, ok := c.Y.(*ssa.Call)
+		if !ok || !isBuiltin(&ln.Call, "len") {
+			continue
+		}
+		if f, _, ok := fieldLoad(ln.Call.Args[0]); ok && f.Name() == fieldName {
+			hdrs = append(hdrs, b)
+			slices = append(slices, ln.Call.Args[0])
+		}
+	}
+	return
+}
+
 func pkgConst(p *Program, fromRel, pkgPath, name string) (int64, bool) {
 	if pk := p.TPkg(fromRel); pk != nil {
 		for _, imp := range pk.Types.Imports() {
@@ -147,31 +173,41 @@ func checkC10(p *Program, r *Report) {
 	// ---- C10.inputs (round 5, C10-agent5-m2): every input's spent outpoint is tested in the iteration that looks at that
 	// input — no path through the loop body reaches the next iteration without the test (an unparsable signature
 	// script used to `continue` past it)
-	if ihdr, _, islice := rangeLoopOver(matcher, "TxIn"); ihdr != nil {
-		var testBlocks []*ssa.BasicBlock
-		for _, b := range matcher.Blocks {
-			for _, in := range b.Instrs {
-				c, ok := in.(*ssa.Call)
-				if !ok || c.Call.StaticCallee() == nil || !p.InRepo(c.Call.StaticCallee()) {
-					continue
-				}
-				for _, a := range c.Call.Args {
-					fa, ok := a.(*ssa.FieldAddr)
-					if !ok || fieldOfAddr(fa).Name() != "PreviousOutPoint" {
+	if ihdrs, islices := rangeLoopsOver(matcher, "TxIn"); len(ihdrs) > 0 {
+		// the function may walk the inputs more than once (outpoints first, scripts second): one loop that tests every
+		// input's outpoint is enough
+		found, okAny := false, false
+		var at ssa.Instruction
+		for li, ihdr := range ihdrs {
+			islice := islices[li]
+			var testBlocks []*ssa.BasicBlock
+			for _, b := range matcher.Blocks {
+				for _, in := range b.Instrs {
+					c, ok := in.(*ssa.Call)
+					if !ok || c.Call.StaticCallee() == nil || !p.InRepo(c.Call.StaticCallee()) {
 						continue
 					}
-					// the element of the ranged slice
-					if ld, ok := fa.X.(*ssa.UnOp); ok {
-						if ia, ok := ld.X.(*ssa.IndexAddr); ok && ia.X == islice {
-							testBlocks = append(testBlocks, b)
+					for _, a := range c.Call.Args {
+						fa, ok := a.(*ssa.FieldAddr)
+						if !ok || fieldOfAddr(fa).Name() != "PreviousOutPoint" {
+							continue
+						}
+						// the element of the ranged slice
+						if ld, ok := fa.X.(*ssa.UnOp); ok {
+							if ia, ok := ld.X.(*ssa.IndexAddr); ok && ia.X == islice {
+								testBlocks = append(testBlocks, b)
+							}
 						}
 					}
 				}
 			}
-		}
-		if len(testBlocks) == 0 {
-			r.Unresolved("C10.inputs", "outpoint test on &txin.PreviousOutPoint in the input loop of "+mname)
-		} else {
+			if len(testBlocks) == 0 {
+				continue
+			}
+			found = true
+			if at == nil {
+				at = ihdr.Instrs[0]
+			}
 			avoid := map[*ssa.BasicBlock]bool{}
 			for _, b := range testBlocks {
 				avoid[b] = true
@@ -179,20 +215,26 @@ func checkC10(p *Program, r *Report) {
 			// can the header be reached again from the loop body without passing a test block?
 			skipped := false
 			for _, s := range ihdr.Succs {
-				if avoid[s] {
+				if avoid[s] || s == ihdr {
 					continue
 				}
-				reach := reachableFrom(s, avoid)
-				if reach[ihdr] && s != ihdr {
-					// s must be inside the loop: the header is reachable from it
+				if reachableFrom(s, avoid)[ihdr] {
 					skipped = true
 				}
 			}
+			if !skipped {
+				okAny = true
+				at = ihdr.Instrs[0]
+			}
+		}
+		if !found {
+			r.Unresolved("C10.inputs", "outpoint test on &txin.PreviousOutPoint in a loop over the inputs of "+mname)
+		} else {
 			how := "every path from the loop header back to it passes the outpoint test (or leaves the function)"
-			if skipped {
+			if !okAny {
 				how = "some path through the loop body reaches the next input without testing this input's outpoint"
 			}
-			r.Add("C10.inputs", mname, "each input's spent outpoint is tested against the filter in its own iteration", p.InstrPos(ihdr.Instrs[0]), !skipped, how)
+			r.Add("C10.inputs", mname, "each input's spent outpoint is tested against the filter in its own iteration", p.InstrPos(at), okAny, how)
 		}
 	}
 	r.Floor("C10.inputs", 1)
